@@ -516,19 +516,18 @@ func (s *Store[K, V]) DeleteWithSecondary(key K) error {
 	entry, ok := shard.get(key)
 	if ok {
 		shard.delete(entry)
-		if s.secondaryCache != nil {
-			err := s.secondaryCache.Delete(key)
-			if err != nil {
-				shard.mu.Unlock()
-				return err
-			}
-		}
+	}
+	// the key may live in the secondary cache only (demoted earlier), or in
+	// both tiers: remove it from the secondary cache in every case
+	var err error
+	if s.secondaryCache != nil {
+		err = s.secondaryCache.Delete(key)
 	}
 	shard.mu.Unlock()
 	if ok {
 		s.writeChan <- WriteBufItem[K, V]{entry: entry, code: REMOVE}
 	}
-	return nil
+	return err
 }
 
 func (s *Store[K, V]) Len() int {
